@@ -35,6 +35,8 @@ let () =
         let l = List.init (String.length line) (fun i -> n_of_int (Char.code line.[i])) in
         let out = match buf_line l with
           | Some o -> o
+          | None -> match ser_line l with
+          | Some o -> o
           | None -> let (st', out) = run_line idna !st l in st := st'; out in
         Buffer.clear buf;
         List.iter (fun c -> Buffer.add_char buf (Char.chr (int_of_n c land 255))) out;
